@@ -103,3 +103,77 @@ func VerifC17Concurrent() {
 		vstub.Assert(ok, "C17 every acknowledged entry is still there after restart and load")
 	}
 }
+
+// VerifC17WritersAndReplication: W goroutines write to a store while the batch
+// of a remote writer is being replicated into it (real Sync -> replicator ->
+// replicationLoadComplete, which persists heads too); every schedule with at
+// most P preemptions.  Every acknowledged local entry and the replicated entry
+// are in the live log exactly once, and after a restart and load all
+// acknowledged local entries are still there.
+func VerifC17WritersAndReplication() {
+	w := vstub.Param("W", 2)
+	p := vstub.Param("P", 1)
+	blocks := vstub.NewBlocks(nil)
+	b, env := openAC("a", blocks, vstubodb.WriteAll())
+	if b == nil {
+		return
+	}
+	env.Cache.Label = headTimes
+	prov := vstub.NewProvider()
+	w2 := vstub.NewIdentity("w2", prov)
+	_, remote := appendAs(env, nil, b.id, w2, []byte("remote"))
+	if remote == nil {
+		return
+	}
+	entries := make([]ipfslog.Entry, w)
+	errs := make([]error, w)
+	vstub.ExploreSchedules(p)
+	var wg sync.WaitGroup
+	wg.Add(1)
+	go func() {
+		defer wg.Done()
+		_ = b.Sync(context.Background(), []ipfslog.Entry{remote.Copy()})
+	}()
+	for k := 0; k < w; k++ {
+		wg.Add(1)
+		go func(k int) {
+			defer wg.Done()
+			entries[k], errs[k] = b.AddOperation(context.Background(), operation.NewOperation(nil, "ADD", []byte{'l', byte(k)}), nil)
+		}(k)
+	}
+	wg.Wait()
+	vstub.WaitIdle()
+	vstub.ExploreSchedules(0)
+	vstub.Cover("written")
+	for k := 0; k < w; k++ {
+		vstub.Assert(errs[k] == nil, "C17 a write concurrent with a replication succeeds")
+		if errs[k] != nil {
+			return
+		}
+		_, ok := b.OpLog().Get(entries[k].GetHash())
+		vstub.Assert(ok, "C17 every acknowledged entry is in the live log")
+	}
+	vstub.Assert(inLog(b, remote), "C17 the replicated entry is merged while local writes go on")
+	vstub.Assert(b.OpLog().Len() == w+1, "C17 exactly one entry per call plus the replicated one")
+	_ = b.Close()
+	env2 := vstubodb.NewEnv("a", 1, "db", blocks, nil)
+	env2.Cache = env.Cache
+	ropts := env2.Options(false)
+	ropts.AccessController = vstubodb.WriteAll()
+	r := &BaseStore{}
+	if err := r.InitBaseStore(env2.IPFS, env2.Identity, env2.Addr, ropts); err != nil {
+		vstub.Fail("InitBaseStore (reopen) failed")
+		return
+	}
+	if err := r.Load(context.Background(), -1); err != nil {
+		vstub.Fail("C17 Load after restart failed")
+		return
+	}
+	vstub.WaitIdle()
+	vstub.Cover("reloaded")
+	for k := 0; k < w; k++ {
+		_, ok := r.OpLog().Get(entries[k].GetHash())
+		vstub.Assert(ok, "C17 every acknowledged entry is still there after restart and load (writes racing a replication)")
+	}
+	vstub.Assert(inLog(r, remote), "C05 the replicated entry is still there after restart and load")
+}
